@@ -1346,6 +1346,10 @@ class Data(BaseCartesianData):
         if new.parent is None:
             new.parent = self
 
+        # The links between pixel and world components have to follow the change
+        for link in self._coordinate_links:
+            link.replace_ids(old, new)
+
         changed = False
         if old in self._components:
 
